@@ -12,7 +12,7 @@ fn mk(v: usize) -> CountAndState {
     unsafe { std::mem::transmute::<usize, CountAndState>(v) }
 }
 
-// @verif prop=C04,C16 tier=quick timeout=300 mem=4
+// @verif prop=C04,C16,C03 tier=quick timeout=1200 mem=4
 // @enc CountAndState::inc CountAndState::dec
 // @sym the whole packed word (any usize): inductive step, any history
 // @bound none on values; one inc and one dec from an arbitrary word
@@ -44,7 +44,7 @@ fn c04_count_inc_dec_step() {
     kani::cover!(w >= MASK, "saturated word");
 }
 
-// @verif prop=C03,C04 tier=quick timeout=300 mem=4
+// @verif prop=C03,C04 tier=quick timeout=1200 mem=4
 // @enc CountAndState::set_state CountAndState::is_prep CountAndState::is_zombie CountAndState::new
 // @sym the whole packed word (any usize) x target state
 // @bound none on values; one step
